@@ -53,5 +53,28 @@ def run(ids):
     assert clean()
     sh("cd /verif/sim && cargo build --release --offline")
 
+def thorough(nid, checks):
+    """tools/neutral.py thorough <id> <check> ...   thorough tier of the named checks on one stored patch"""
+    assert clean()
+    d = f"/verif/neutral/{nid}/"
+    p = sh(f"git -C {REPO} apply {d}patch.diff")
+    assert p.returncode == 0, p.stderr
+    row = {}
+    try:
+        for cid in checks:
+            r = sh(f"cd /verif && sim/check.sh {cid} thorough")
+            lines = [l for l in r.stdout.splitlines() if l.startswith("violation ")]
+            summ = [l for l in r.stdout.splitlines() if l.startswith("summary")]
+            row[cid] = {"exit": r.returncode, "reports": [l[:400] for l in lines[:6]], "summary": summ[-1] if summ else ""}
+            print(nid, cid, "thorough exit", r.returncode, (summ[-1] if summ else "")[:160], flush=True)
+            for l in lines[:3]: print("   ", l[:300])
+    finally:
+        sh(f"git -C {REPO} checkout -- . && git -C {REPO} clean -fdq -- src tests")
+    old = json.load(open(d + "result_thorough.json")) if os.path.exists(d + "result_thorough.json") else {}
+    old.update(row)
+    json.dump(old, open(d + "result_thorough.json", "w"), indent=1)
+    assert clean()
+
 if sys.argv[1] == "ingest": ingest(sys.argv[2], sys.argv[3])
+elif sys.argv[1] == "thorough": thorough(sys.argv[2], sys.argv[3:])
 else: run(sys.argv[2:])
